@@ -157,3 +157,112 @@ def same_kind(a, b):
     if la == 0 and lb == 0:
         return a[0] == b[0]
     return la > 0 and lb > 0
+
+
+# ------------------------------------------------------------------------------------------ hand-enumerated surface
+# One or more texts per PStmt / PExpr constructor and per lexical form the generator never writes. `unsupported` answers
+# are expected for the forms Model/Interp.lean has no node for (listed in the evidence); everything else must agree.
+HAND_TEXTS = [
+    # statements
+    ("nop", "nop;\nnop;;\n;\nprint 1;\n"),
+    ("trace", "trace true;\nprint 1;\n"),
+    ("put", "put 1 2;\nprint 3;\n"),
+    ("letn", "x:integer;\nprint x;\n"),
+    ("letn-chain", "x:integer, y = 2;\nprint y;\n"),
+    ("let-assign", "a := 5;\nprint a;\n"),
+    ("let-keyword", "let a = 5;\nprint a;\n"),
+    ("let-chain", "a = 1, b = a + 1, c = b * 2;\nprint a b c;\n"),
+    ("let-chain-do", "a = 1, do a + 1;\nprint a;\n"),
+    ("do", "t = tab(1, 1);\ndo t.concat(5);\nt.concat(6);\nprint t.count();\n"),
+    ("expr-stmt", "x = 1;\nx + 1;\nprint x;\n"),
+    ("print-many", "print 1 \"a\" true 2.5 null;\nprint;\n"),
+    ("if-elsif", "x = 3;\nif x == 1 then print 1;\nelsif x == 2 then print 2;\nelsif x == 3 then print 3;\nelse print 4;\nend if;\n"),
+    ("if-elsif-noelse", "x = 9;\nif x == 1 then print 1;\nelsif x == 2 then print 2;\nend if;\nprint 0;\n"),
+    ("if-null-cond", "b = bool();\nif b then print 1; else print 2; end if;\n"),
+    ("while-break-continue", "i = 0;\nwhile true loop\n  i = i + 1;\n  if i == 2 then continue; end if;\n  if i > 4 then break; end if;\n  print i;\nend loop;\n"),
+    ("for-step-desc", "for k in 1 to 10 step 3 desc loop print k; end loop;\n"),
+    ("for-step-asc", "for k in 10 to 1 step 4 asc loop print k; end loop;\nfor k in 1 to 10 step 4 asc loop print k; end loop;\n"),
+    ("for-step-zero", "for k in 1 to 3 step 0 loop print k; end loop;\n"),
+    ("for-null-bound", "for k in int() to 3 loop print k; end loop;\nprint 9;\n"),
+    ("for-decimal-bound", "for k in 1.5 to 3 loop print k; end loop;\n"),
+    ("for-string-bound", "for k in \"a\" to 3 loop print k; end loop;\n"),
+    ("forall-desc", "t = tab(3, 0);\nt.put(0, 1);\nt.put(2, 5);\nforall e in t desc loop print e; end loop;\nforall e in t asc loop print e; end loop;\n"),
+    ("forall-write", "t = tab(2, 1);\nforall e in t loop e = e + 1; end loop;\nprint t.at(0) t.at(1);\n"),
+    ("forall-temp", "forall e in tab(2, \"x\") loop print e; end loop;\n"),
+    ("forall-not-table", "x = 1;\nforall e in x loop print e; end loop;\n"),
+    ("begin-handlers", "begin\n  raise e1;\nexception\n  when e2 then print 2;\n  when e1 then print 1;\n  when others then print 0;\nend;\n"),
+    ("raise-in-handler", "begin\n  begin\n    raise e1;\n  exception\n    when e1 then raise e2;\n  end;\nexception\n  when e2 then print \"outer\";\nend;\n"),
+    ("raise-builtin-name", "begin\n  raise divide_by_zero;\nexception\n  when divide_by_zero then print 1;\nend;\nraise out_of_range;\n"),
+    ("raise-uncaught", "print 1;\nraise my_error;\nprint 2;\n"),
+    ("others-first", "begin\n  x = 1 / 0;\nexception\n  when others then print \"o\";\n  when divide_by_zero then print \"d\";\nend;\n"),
+    ("return-in-loop", "for k in 1 to 5 loop\n  if k == 3 then return k; end if;\n  print k;\nend loop;\nprint 9;\n"),
+    ("return-in-while-in-func", "function f(n:integer) return integer is\nbegin\n  i = 0;\n  while true loop\n    i = i + 1;\n    if i >= n then return i * 10; end if;\n  end loop;\nend;\nprint f(3);\n"),
+    ("return-bare", "print 1;\nreturn;\nprint 2;\n"),
+    ("function-typed", "function add(a:integer, b:decimal) return decimal is\nbegin\n  return a + b;\nend;\nprint add(1, 2.5);\n"),
+    ("function-noparams", "function one return integer is\nbegin\n  return 1;\nend;\nprint one();\n"),
+    ("function-handler", "function g(x) return string is\nbegin\n  y = 1 / x;\n  return \"ok\";\nexception\n  when divide_by_zero then return \"dbz\";\nend;\nprint g(0) g(1);\n"),
+    ("function-recursive", "function fact(n:integer) return integer is\nbegin\n  if n <= 1 then return 1; end if;\n  return n * fact(n - 1);\nend;\nprint fact(10);\n"),
+    ("function-redeclared", "function f() return integer is begin return 1; end;\nfunction f() return integer is begin return 2; end;\nprint f();\n"),
+    ("function-nested-refused", "begin\n  function f() return integer is begin return 1; end;\nend;\n"),
+    ("function-in-function-refused", "function f() return integer is\nbegin\n  function g() return integer is begin return 1; end;\n  return 1;\nend;\n"),
+    ("function-table-type", "function f() return table is begin return tab(1, 1); end;\nprint f().count();\n"),
+    ("safety-var", "$q = 1;\n$q = $q + 1;\nprint $q;\n$q = \"s\";\n"),
+    ("safety-var-call", "function f() return integer is begin return 2; end;\n$q = 1;\n$q = f();\nprint $q;\n"),
+    ("safety-iter-forall", "t = tab(2, 1);\nforall $e in t loop print $e; end loop;\nforall $e in t loop print $e; end loop;\n"),
+    ("import", "import sys;\nprint 1;\n"),
+    # expressions
+    ("hex-literals", "print 0x1F 0XfF 0x7fffffffffffffff 0xFFFFFFFFFFFFFFFF;\n"),
+    ("int-wrap-literal", "print 9223372036854775808 18446744073709551615;\n"),
+    ("int-too-big", "print 18446744073709551616;\n"),
+    ("decimal-forms", "print 1.5 0.25 1e3 2.5e-1 1.0E+2;\n"),
+    ("string-escapes", "print \"a\\tb\\nc\\\\d\\\"e\\x\" \"q\"\"q\";\nprint strlen(\"\\a\\b\\f\\r\");\n"),
+    ("string-unterminated", "print \"abc;\n"),
+    ("comments", "// a line comment\nprint 1; // trailing\n/* a block\n comment */ print 2;\nprint /* inline */ 3;\n"),
+    ("comment-unterminated", "print 1;\n/* never closed\nprint 2;\n"),
+    ("crlf", "x = 1;\r\nprint x;\r\nif x == 1 then\r\n  print \"one\";\r\nend if;\r\n"),
+    ("crlf-in-string", "print \"a\rb\";\r\n"),
+    ("case-insensitive-names", "Abc = 1;\nprint aBC ABC;\nfunction Ff() return integer is begin return 7; end;\nprint fF();\n"),
+    ("keywords-case", "PRINT 1;\n"),
+    ("operators-symbols", "print (true && false) (true || false) (!true) (2 ** 10) (7 % 3) (1 << 4) (256 >> 2) (6 & 3) (6 | 3) (6 ^ 3) (~5);\n"),
+    ("operators-words", "print (true and false) (true or false) (true xor true) (not true) (2 power 3);\n"),
+    ("precedence", "print 1 + 2 * 3 - 4 / 2 2 ** 3 ** 2 - 2 ** 2 1 < 2 == true -3 + +4;\n"),
+    ("unary-chain", "print - -3;\n"),
+    ("relational-chain-refused", "print 1 < 2 < 3;\n"),
+    ("matches", "print \"abc\" matches \"a.c\";\n"),
+    ("on-off", "print on off;\n"),
+    ("constants", "print pi;\nprint ee phi;\n"),
+    ("constant-ii", "x = ii;\n"),
+    ("constant-error", "begin raise e1; exception when e1 then print error; end;\n"),
+    ("null-ctors", "print int() num() bool() str() raw();\nprint isnull(int()) typeof(num());\n"),
+    ("builtins-modelled", "print substr(\"hello\", 1, 3) subraw(raw(\"hello\"), 1) hex(255) hash(\"a\") abs(-3) pow(2, 5) b64enc(\"ab\") str(b64dec(\"YWI=\")) tokenize(\"a,b\", \",\").count();\n"),
+    ("builtins-unmodelled", "print max(1, 2);\n"),
+    ("builtin-arity", "print strlen();\n"),
+    ("builtin-arity2", "print strlen(\"a\", \"b\");\n"),
+    ("builtin-no-paren", "print strlen;\n"),
+    ("tuple-items", "u = tup(1, \"a\");\nprint u@1;\n"),
+    ("tuple-set", "u = tup(1, \"a\");\nu.set@1(5);\nprint 1;\n"),
+    ("item-not-int", "u = tup(1, 2);\nprint u@x;\n"),
+    ("members-all", "t = tab(2, 7);\nt.concat(8);\nt.put(0, 1);\nt.insert(1, 5);\nt.delete(0);\nprint t.count() t.at(0) t.at(1) t.at(2);\n"),
+    ("member-on-string", "s = \"ab\";\nprint s.count() s.at(0);\ns.concat(\"c\");\nprint s;\n"),
+    ("member-unknown", "t = tab(1, 1);\nprint t.size();\n"),
+    ("member-arity", "t = tab(1, 1);\nprint t.at();\n"),
+    ("member-chain", "t = tab(2, tab(2, 3));\nprint t.at(1).at(0) t.at(0).count();\n"),
+    ("paren-mismatch", "print (1 + 2;\n"),
+    ("paren-extra", "print 1 + 2);\n"),
+    ("reserved-word", "loop = 1;\n"),
+    ("reserved-builtin", "strlen = 1;\n"),
+    ("not-a-statement", "1 + 2;\n"),
+    ("missing-separator", "print 1\nprint 2;\n"),
+    ("eof-in-block", "if true then\n  print 1;\n"),
+    ("empty-block", "if true then end if;\n"),
+    ("end-wrong", "while false loop nop; end if;\n"),
+    ("empty-text", ""),
+    ("only-comment", "// nothing\n"),
+    ("dollar-in-name", "a$b = 1;\nprint a$b;\n"),
+    ("underscore-name", "_x1 = 2;\nprint _x1;\n"),
+    ("undefined-symbol", "print zz;\n"),
+    ("undefined-in-dead-code", "if false then print zz; end if;\n"),
+    ("type-mismatch", "x = 1 + \"a\";\n"),
+    ("type-mismatch-bool", "x = 1 and true;\n"),
+    ("retype", "x = 1;\nx = \"s\";\nx = x + \"t\";\nprint x;\n"),
+]
